@@ -338,6 +338,13 @@ func (c *checker) table(t *pgdump.TableDump) bool {
 			if !ok {
 				v = nil
 			}
+			if v != nil && (col.TypID == 114 || col.TypID == 3802) {
+				// json / jsonb column: one string constant holding valid JSON with that value
+				if !c.one(func(t tok) bool { return t.kind == tStr && jsonTextIs(v, t.text) }, "JSON string (json column)") {
+					return false
+				}
+				continue
+			}
 			if !c.value(v) {
 				return false
 			}
